@@ -56,7 +56,7 @@ class Closure:
         self.node, self.env = node, env
 
 
-STR_METHODS = {"startswith", "endswith", "replace", "upper", "lower", "strip", "split", "join", "format", "lstrip", "rstrip"}
+STR_METHODS = {"startswith", "endswith", "replace", "upper", "lower", "strip", "split", "rsplit", "join", "format", "lstrip", "rstrip", "partition", "rpartition", "isdigit", "isalnum", "isidentifier", "title", "capitalize", "find", "count"}
 EXC_NAMES = {"Exception", "ValueError", "KeyError", "TypeError", "AttributeError", "RuntimeError"}
 
 
